@@ -120,6 +120,9 @@ func NewSession(cfg Config) *Session {
 }
 
 func (s *Session) emit(ev string, f tr.E) {
+	if s.Log == nil {
+		return
+	}
 	if f == nil {
 		f = tr.E{}
 	}
